@@ -247,6 +247,9 @@ func cmdCheck(args []string) int {
 	for _, fc := range fcs {
 		fn := L.funcs[fc.Key]
 		if fn == nil {
+			fn = L.wrappers[fc.Key]
+		}
+		if fn == nil {
 			fmt.Printf("ENGINE-ERROR stale-contract: no function %s in the tree (contract at %s:%d)\n", fc.Key, relPath(fc.File), fc.Line)
 			engineErrors++
 			continue
